@@ -366,6 +366,7 @@ def c05(run):
     quick = run.tier == "quick"
     run.build_harness()
     race_bin = run.build_harness(race=True)
+    run.fatal_race_is_violation = True
     for d in ("SHAREDSLICE", "NOONCE", "SHAREDRENDER"):
         run.tlc("Concurrent", cc_cfg(2, dev=[d], emit=False, view=True), name="CC_neg_" + d, expect_violation="ReadOnlyAfterSetup")
     # all interleavings of the model; the behaviours are emitted with their schedule of gate steps
